@@ -7,9 +7,24 @@ Definition nat_list (l : list nat) : val := VL (map (fun n => VZ (Z.of_nat n)) l
 (* exception argument: [] = None; a name found in the table = that rule;
    any other name is compiled by the implementation as a literal regex, which
    cannot match the upper-case sequences the harness generates -> no exception. *)
+(* an explicit rule value (used for exceptions given as a raw regular expression, translated by the
+   harness with the same translator as the tables):
+   cls ::= [0; chars] | [1; chars] | [2] ; alt ::= [before; centre; after] ; rule ::= [alt; ...] *)
+Definition decode_cls (v : val) : cls :=
+  match getL v with
+  | VZ 0 :: cs :: _ => CIn (getS cs)
+  | VZ 1 :: cs :: _ => CNotIn (getS cs)
+  | VZ 2 :: _ => CWord
+  | _ => CBad
+  end.
+Definition decode_alt (v : val) : alt :=
+  mkAlt (map decode_cls (getL (argn 0 v))) (decode_cls (argn 1 v)) (map decode_cls (getL (argn 2 v))).
+Definition decode_rule (v : val) : rule := map decode_alt (getL v).
+
 Definition resolve_exc (v : val) : option rule :=
   match getL v with
   | [] => None
+  | VZ (-1) :: rv :: _ => Some (decode_rule rv)       (* [-1; rule value] *)
   | _ => lookup (getS v) site_rules
   end.
 
